@@ -373,7 +373,7 @@ _ALSO = {
             "conversions of a cell chain, Value::to_vec / to_ref_vec, is_list / is_dotted_list, positional indexing (i = 0..n+1) "
             "and the number of cells Cons::iter visits, each evaluated on structural chains of 0..3 elements with six kinds "
             "of tail (278 cases, loops unrolled over the concrete cells), give the (xs, t) answers the property states - "
-            "cases with small n, not all lists.", None),
+            "cases with small n, not all lists.; the hand-written, iterative Cons::eq holds exactly for chains with the same elements in order and the same tail (12 pairs of chains)", None),
 }
 for _k, (_t, _tech) in _ALSO.items():
     CLAIMS[_k]["text"] = CLAIMS[_k]["text"] + " Also claimed: " + _t
